@@ -54,6 +54,10 @@ theorem Pass.toRun {jc : JCV} {rjs : List JobV} {s : Sys} {ac : Int} {cs : List 
     obtain ⟨acf, hr, hc⟩ := ih
     exact ⟨acf, Run.rejectOk h1 h2 h3 h4 hr, hc⟩
   | rejectLost cur h1 h2 h3 h4 _ _ _ _ => exact ⟨_, Run.rejectFail "ok" h1 h2 h3 h4, id⟩
+  | rejectNoop cur h1 h2 h3 h4 _ _ _ _ _ _ ih =>
+    obtain ⟨acf, hr, hc⟩ := ih
+    exact ⟨acf, Run.rejectOk h1 h2 h3 h4 hr, hc⟩
+  | rejectNoopLost cur h1 h2 h3 h4 _ _ _ _ _ => exact ⟨_, Run.rejectFail "ok" h1 h2 h3 h4, id⟩
   | casFail hv _ => exact ⟨_, Run.casFail hv, id⟩
   | startFail res hv hcas _ _ =>
     refine ⟨_, Run.startFail res hv, fun h => ?_⟩
